@@ -408,6 +408,7 @@ func genCronFile(r *rand.Rand, i int) *cronFile {
 // ---- harness -------------------------------------------------------------------
 
 type cronHarness struct {
+	tickHung bool
 	dir   string
 	fake  *cronFake
 	files map[string]*cronFile
@@ -473,7 +474,14 @@ func (h *cronHarness) stopDaemon() {
 // returns the calls the fake received, once the tick is complete.
 func (h *cronHarness) tick(m, wall time.Time) ([]cronCall, bool) {
 	h.fake.beginTick(wall)
-	h.sched.VerifTick(m)
+	ticked := make(chan struct{})
+	go func() { h.sched.VerifTick(m); close(ticked) }()
+	select {
+	case <-ticked:
+	case <-time.After(30 * time.Second):
+		h.tickHung = true // the tick itself never returned (its goroutine is abandoned)
+		return nil, false
+	}
 	deadline := time.Now().Add(60 * time.Second)
 	spin := 0
 	for {
@@ -890,6 +898,10 @@ func c09Set(c *core.Ctx, idx int, watcher bool) {
 			}
 			pre := h.snapshot()
 			calls, ok := h.tick(m, wall.Add(time.Duration(r.Intn(3))*time.Second))
+			if !ok && h.tickHung {
+				violate(cronVerdict{"daemon-stuck", fmt.Sprintf("the tick for %s did not return within 30 s: the daemon no longer schedules anything (files: %d, watcher=%v)", m.Format(time.RFC3339), len(files), watcher), ""}, m, w)
+				return
+			}
 			if !ok {
 				c.Inconclusive(fmt.Sprintf("set %d: tick %s did not become quiescent within 60 s", idx, m))
 				return
@@ -929,6 +941,10 @@ func c09Set(c *core.Ctx, idx int, watcher bool) {
 					time.Sleep(20 * time.Millisecond)
 					pre := h.snapshot()
 					calls, ok := h.tick(m, m)
+					if !ok && h.tickHung {
+						violate(cronVerdict{"daemon-stuck", fmt.Sprintf("the tick for %s did not return within 30 s after a change of the DAGs directory: the daemon no longer schedules anything", m.Format(time.RFC3339)), ""}, m, w)
+						return
+					}
 					if !ok {
 						c.Inconclusive("tick did not become quiescent")
 						return
